@@ -1,13 +1,21 @@
 package model
 
 import (
+	"errors"
 	"fmt"
 
 	"github.com/libp2p/go-libp2p/core/crypto"
+	"github.com/libp2p/go-libp2p/core/peer"
 	"github.com/libp2p/go-libp2p/core/record"
 )
 
-func makeRequestEnvelop(rec record.Record, privateKey crypto.PrivKey) ([]byte, error) {
+func makeRequestEnvelop(providerID peer.ID, rec record.Record, privateKey crypto.PrivKey) ([]byte, error) {
+	// A request is only accepted when it is signed with the key of the
+	// provider it names.
+	if !providerID.MatchesPrivateKey(privateKey) {
+		return nil, errors.New("provider ID does not match private key")
+	}
+
 	envelope, err := record.Seal(rec, privateKey)
 	if err != nil {
 		return nil, fmt.Errorf("could not sign request: %s", err)
